@@ -244,6 +244,33 @@ def run(R):
         rc = cn.calls(pat='Reconnect', name='new')
         R.check(len(rc) == 1 and show(cn.origin(rc[0][1]['args'][2])).startswith('arg'), 'C14.R4', 'is_lazy-plumbed', site(cn), 'Reconnect::new(.., is_lazy) receives the flag: %s' % (show(cn.origin(rc[0][1]['args'][2])) if rc else None))
 
+    # the public entry points: eager connects go through Channel::connect (-> Connection::connect) on every path, lazy ones
+    # through Channel::new (-> Connection::lazy); an eager function that builds the channel lazily reports no initial failure
+    with R.guard('C14.R4', 'endpoint'):
+        def fam_of(suffix):
+            return [b_ for b_ in tonic.bodies if b_.kind in ('fn', 'coroutine') and re.search(r'channel::endpoint::Endpoint::%s(::\{closure#0\})?$' % suffix, b_.path)]
+        for nm, eager in (('connect', True), ('connect_with_connector', True), ('connect_lazy', False), ('connect_with_connector_lazy', False)):
+            fam = fam_of(nm)
+            if not fam:
+                R.bad('C14.R4', 'endpoint:%s' % nm, '', 'Endpoint::%s not found' % nm, kind='ANCHOR-MISSING')
+                continue
+            eag = [(b_, bb, t) for b_ in fam for bb, t in b_.calls(pat='transport::channel::Channel::connect')]
+            laz = [(b_, bb, t) for b_ in fam for bb, t in b_.calls(pat='transport::channel::Channel::new')]
+            R.saw(*fam)
+            if eager:
+                main = [b_ for b_ in fam if b_.kind == 'coroutine'] or fam
+                mb_ = main[0]
+                via = {bb for b_, bb, t in eag if b_ is mb_}
+                okp = bool(via) and all(mb_.must_pass(0, rb, via) for rb in mb_.return_blocks())
+                R.check(not laz and okp, 'C14.R4', 'endpoint:%s:eager' % nm, site(mb_), 'Endpoint::%s: Channel::new sites %d (must be 0); every path to a return passes Channel::connect(..).await: %r' % (nm, len(laz), okp))
+            else:
+                R.check(not eag and bool(laz), 'C14.R4', 'endpoint:%s:lazy' % nm, site(fam[0]), 'Endpoint::%s: Channel::connect sites %d (must be 0), Channel::new sites %d' % (nm, len(eag), len(laz)))
+        for nm, inner in (('connect', 'Connection::connect'), ('new', 'Connection::lazy')):
+            fam = [b_ for b_ in tonic.bodies if b_.kind in ('fn', 'coroutine') and re.search(r'transport::channel::Channel::%s(::\{closure#0\})?$' % nm, b_.path)]
+            hits = [(b_, bb) for b_ in fam for bb, t in b_.calls(pat='service::connection::' + inner)]
+            other = [(b_, bb) for b_ in fam for bb, t in b_.calls(pat='service::connection::Connection::') if (t.get('fn') or '').split('::')[-1] in ('connect', 'lazy') and not (t.get('fn') or '').endswith(inner)]
+            R.check(len(hits) >= 1 and not other, 'C14.R4', 'channel:%s->%s' % (nm, inner), site(hits[0][0], hits[0][1]) if hits else '', 'Channel::%s builds its connection with %s: %d site(s), other constructors: %d' % (nm, inner, len(hits), len(other)))
+
     # ---------------------------------------------------------------- R5 UNAVAILABLE
     R.describe('C14.R5', 'connector errors are wrapped in ConnectError; a ConnectError in a source chain maps to Status::unavailable')
     with R.guard('C14.R5'):
